@@ -1255,7 +1255,8 @@ class _iterinfo(object):
             self.eastermask = [0]*(self.yearlen+7)
             eyday = easter.easter(year).toordinal()-self.yearordinal
             for offset in rr._byeaster:
-                self.eastermask[eyday+offset] = 1
+                if 0 <= eyday+offset < self.yearlen+7:
+                    self.eastermask[eyday+offset] = 1
 
         self.lastyear = year
         self.lastmonth = month
